@@ -77,15 +77,20 @@ def write_if_changed(path, content):
 # facts
 
 def run_facts(cfg):
-    """Regenerate lean/EgVerif/Gen/Facts*.lean from /repo's current source."""
+    """Regenerate lean/EgVerif/Gen/Facts<pid>*.lean from the repo's current source.
+    The extractor binary is built per property from main.go + facts_<pid>*.go so that
+    properties cannot break each other."""
+    pid = cfg["id"]
     src = os.path.join(VERIF, "harness", "factextract")
-    if not os.path.isdir(src):
+    mine = sorted(f for f in os.listdir(src) if f.lower().startswith("facts_%s" % pid.lower()) and f.endswith(".go"))
+    if not mine:
         return True, ""
-    with Lock("facts"):
-        binp = os.path.join(BUILD, "factextract")
-        newest = max(os.path.getmtime(os.path.join(src, f)) for f in os.listdir(src))
+    with Lock("facts_" + pid):
+        binp = os.path.join(BUILD, "factextract_" + pid)
+        files = ["main.go"] + mine
+        newest = max(os.path.getmtime(os.path.join(src, f)) for f in files)
         if not os.path.exists(binp) or os.path.getmtime(binp) < newest:
-            rc, out = run(["go", "build", "-o", binp, "."], cwd=src, env=go_env(), timeout=300)
+            rc, out = run(["go", "build", "-o", binp] + files, cwd=src, env=go_env(), timeout=300)
             if rc != 0:
                 return False, "factextract build failed:\n" + out
         rc, out = run([binp, "-repo", REPO, "-out", os.path.join(LEAN, "EgVerif", "Gen")], timeout=300)
@@ -253,8 +258,8 @@ def run_harness(binp, h, mode, seed, n, tier, out_path, in_path=None, timeout=60
     return rc, out
 
 
-def run_judge(judge, cases_path, verdict_path, timeout=3600):
-    exe = os.path.join(LEAN, ".lake", "build", "bin", "egjudge")
+def run_judge(pid, judge, cases_path, verdict_path, timeout=3600):
+    exe = os.path.join(LEAN, ".lake", "build", "bin", "egjudge-" + pid)
     with open(cases_path) as fin, open(verdict_path, "w") as fout:
         p = subprocess.run([exe, judge], stdin=fin, stdout=fout, stderr=subprocess.PIPE, text=True, timeout=timeout)
     return p.returncode, p.stderr
@@ -340,11 +345,20 @@ def linked_shrink(inp, links):
 # --------------------------------------------------------------------------
 
 def load_known():
-    p = os.path.join(VERIF, "known_findings.json")
-    try:
-        return json.load(open(p))
-    except OSError:
-        return {"open": [], "fixed": []}
+    """known_findings.json + known_findings.d/*.json (committed, never written at run time)."""
+    k = {"open": [], "fixed": []}
+    paths = [os.path.join(VERIF, "known_findings.json")]
+    d = os.path.join(VERIF, "known_findings.d")
+    if os.path.isdir(d):
+        paths += sorted(os.path.join(d, f) for f in os.listdir(d) if f.endswith(".json"))
+    for p in paths:
+        try:
+            j = json.load(open(p))
+        except (OSError, ValueError):
+            continue
+        k["open"] += j.get("open", [])
+        k["fixed"] += j.get("fixed", [])
+    return k
 
 
 def match_known(pid, harness, sig, known):
@@ -375,7 +389,7 @@ class Check:
             self.broken.append({"kind": "facts", "name": "factextract", "detail": out[-1500:]})
         mod = cfg["props_module"]
         names = source_theorems(mod)
-        ok, out, broken = lake_build([mod, "egjudge"])
+        ok, out, broken = lake_build([mod, "egjudge-" + self.pid])
         self.lake_ok = ok
         if not ok:
             for b in broken:
@@ -484,7 +498,7 @@ class Check:
             hres.update({"evaluations": 0, "agree": 0, "spec_ok": 0})
             for cf in case_files:
                 vf = cf + ".verdict"
-                rc, err = run_judge(h.get("judge", cfg.get("judge", self.pid)), cf, vf)
+                rc, err = run_judge(self.pid, h.get("judge", cfg.get("judge", self.pid)), cf, vf)
                 if rc != 0:
                     self.broken.append({"kind": "correspondence", "name": "judge failed", "detail": err[-800:]})
                     continue
@@ -545,7 +559,7 @@ class Check:
         rc, o = run_harness(binp, h, "replay", self.seed, len(inputs), self.tier, base + ".out", base + ".in", 300)
         if rc != 0 or not os.path.exists(base + ".out"):
             return [], []
-        rc, err = run_judge(h.get("judge", self.cfg.get("judge", self.pid)), base + ".out", base + ".verdict")
+        rc, err = run_judge(self.pid, h.get("judge", self.cfg.get("judge", self.pid)), base + ".out", base + ".verdict")
         if rc != 0:
             return [], []
         return read_jsonl(base + ".out"), read_jsonl(base + ".verdict")
@@ -647,7 +661,7 @@ def main(argv):
         ck.proofs()
     else:
         ck.lake_ok = True
-    if getattr(ck, "lake_ok", True) or os.path.exists(os.path.join(LEAN, ".lake/build/bin/egjudge")):
+    if getattr(ck, "lake_ok", True) or os.path.exists(os.path.join(LEAN, ".lake/build/bin/egjudge-" + a.pid)):
         ck.correspondence(replay)
     if ck.broken and not ck.violations and not replay and a.tier == "quick" and not os.environ.get("VERIF_NO_SEARCH"):
         # search: widen the generator run before giving up on a concrete failing input
